@@ -16,7 +16,7 @@
      component's publishResponse mapping (internal/aaa/component.go handleAAARequest) as a pure function.
 
    [rep : bool] selects the variant: true = repaired (the behaviour the theorems are proved for; equals the
-   /repo HEAD: fixes 8b06a36, 99f4417, c6c869c), false = the code before those fixes (historical, only [_refuted] witnesses). *)
+   /repo HEAD: fixes 8b06a36, 99f4417, c6c869c, 671f51c; PPPoE [mkV true rfc] also e9950ea, 0709f1b), false = the code before those fixes (historical, only [_refuted] witnesses). *)
 From OV Require Import Common.Base.
 
 (* ------------------------------------------------------------------ *)
@@ -175,10 +175,9 @@ Definition fsm_input (rfc : bool) (c : cframe) (f : fsm) : fsm * list act :=
 (* variant: [vrep] session logic of /repo HEAD (true) or of the code before the C03 fixes (false); [vrfc] FSM table flavour *)
 Record vr := mkV4 { vrep : bool; vrfc : bool;
                      vtd : bool;  (* the session is torn down when LCP leaves Opened on an authenticated link
-                                     (fixes/C03_pppoe_lcp_down_teardown.patch); false = /repo HEAD without it *)
+                                     (e9950ea); false = the code before it *)
                      vhl : bool   (* an AAA answer that was matched to a session before that session was torn down is
-                                     dropped when it gets the session lock (fixes/C03_pppoe_aaa_answer_after_teardown.patch);
-                                     false = /repo HEAD without it *) }.
+                                     dropped when it gets the session lock (0709f1b); false = the code before it *) }.
 Definition mkV3 (rep rfc td : bool) : vr := mkV4 rep rfc td td.
 Definition mkV (rep rfc : bool) : vr := mkV3 rep rfc true.
 
@@ -389,7 +388,7 @@ Definition start_v4 (m : mach) : mach :=
     end
   | APool =>
     (* ReserveIP of the address the session holds: no effect.  For a session that has been through terminate() (a held
-       answer on /repo HEAD, [vhl] = false) the address went back to the pool and is reserved again *)
+       answer before 0709f1b, [vhl] = false) the address went back to the pool and is reserved again *)
     if live s then m else
     match mfree m with
     | S fr => emit GAlloc (mkM s (mn m) fr (mq m) (mo m) (mfree6 m))
@@ -614,7 +613,7 @@ Fixpoint find_idx {A} (p : A -> bool) (l : list A) (i : nat) : option nat :=
    then runs the dead-peer teardown of that session at once (removed from the indexes, terminate()) *)
 Definition aaa_apply (v : vr) (i : nat) (a : akind) (m : mach) : mach :=
   let m1 := on_auth_result v i (allowed_of a) (match a with AAccIp => true | _ => false end) m in
-  (* handleDeadPeer(sid): nothing when the session is not in the indexes any more (a held answer, HEAD) *)
+  (* handleDeadPeer(sid): nothing when the session is not in the indexes any more (a held answer before 0709f1b) *)
   if vrep v && negb (allowed_of a) && live (ms m1) then terminate (upd (set_live false) m1) else m1.
 (* the re-check under the session lock for an answer matched earlier: terminate() does not clear the pending id *)
 Definition held_matches (v : vr) (k : nat) (s : sess) : bool :=
